@@ -436,6 +436,36 @@ func (in *Interp) syncCall(fr *frame, fn *ssa.Function, full string, args []Valu
 
 func (in *Interp) atomicCall(fn *ssa.Function, full string, args []Value) (Value, bool) {
 	name := fn.Name()
+	// typed atomics ((*atomic.Int64).Add, (*atomic.Value).Load, ...): the payload is the last field
+	if fn.Signature.Recv() != nil {
+		p := args[0].(*Value)
+		if st, ok := (*p).(Struct); ok && len(st) > 0 {
+			slot := &st[len(st)-1]
+			switch name {
+			case "Add":
+				n := BVBin("add", false, (*slot).(*Term), args[1].(*Term))
+				*slot = n
+				return n, true
+			case "Load":
+				return copyVal(*slot), true
+			case "Store":
+				storeInto(slot, args[1])
+				return nil, true
+			case "Swap":
+				old := copyVal(*slot)
+				storeInto(slot, args[1])
+				return old, true
+			case "CompareAndSwap":
+				eq := in.valEq(*slot, args[1], token.NoPos)
+				if in.branch(eq) {
+					storeInto(slot, args[2])
+					return Boolc(true), true
+				}
+				return Boolc(false), true
+			}
+		}
+		in.fail("unsupported", "atomic: "+full)
+	}
 	switch {
 	case strings.HasPrefix(name, "Add"):
 		p := args[0].(*Value)
